@@ -486,6 +486,7 @@ func init() {
 		Rule: "plans = (one real server with 1-3 listeners of mixed kinds, configured encryption list from {[none,tls],[tls,none],[tls],[none]} and compression list from {[none],[none,gzip],[gzip,none]}; 1-4 clients dialling one after another: real ClientChannel with " +
 			"encryption selector default/none/tls, or scripted cooperative raw client picking offered options, or one that picks a not-offered / empty / unknown option, or one that picks TLS and pipelines cleartext credentials behind its choice in the same write; benign link faults with emphasis on fragmentation in both directions); " +
 			"oracle per connection from the wire taps (tcp) or the scripted client's frames (ws, wss, in-process): offer = configured intersect supported, confirmation only of a pair from the offer, other choices failed, after a TLS confirmation only TLS records in either direction, " +
+			"real websocket clients (optionally dialled with a TLS configuration on ws://): the encryption their transport reports equals what the connection carries; client role (one plan in six): a real ClientChannel against a scripted server that offers, confirms with both / one / no option field and switches to TLS itself, first TLS flights shaped by a late delimiter and a cut offset; " +
 			"the confirmed upgrade completes under benign faults, and nothing is established on credentials that travelled in cleartext behind a TLS choice; non-trivial = server started; distinct = distinct (plan JSON, event-log hash)",
 	})
 }
